@@ -123,7 +123,12 @@ P = {
         "dataset; all operation sequences of length <= 2 (<= 3) on shared vs fresh objects; twice-same."), tech=TECH_MIX),
     "C16": dict(cat="other", text=(
         "Proved: Ranking.__init__ gives positions[x] = 1 + size of earlier buckets, domain = union of buckets, refuses "
-        "overlapping buckets. Bounded: the full view-consistency predicate after constructors, parsing, generators, "
+        "overlapping buckets; in Dataset._analyse_rankings (run by the constructor and by every mutator) one iteration "
+        "of the counting loop counts every element of the ranking exactly once more and keeps `without_ties` exactly "
+        "when no bucket holds two elements, and the loop over the counted elements gives every one of them an id in "
+        "0..k-1, makes the two id maps inverse of each other with no other key, and keeps `complete` exactly when every "
+        "element was counted once per ranking (fragments). Bounded: the name normalisation, how callers store the "
+        "returned flags, and the full view-consistency predicate after constructors, parsing, generators, "
         "unification, projection, consensus rankings, and all mutator sequences of length <= 2 (<= 3)."), tech=TECH_MIX),
     "C17": dict(cat="exploration", text=(
         "Bounded: all ordered pairs of datasets over hash-colliding names with buckets built in every insertion order "
